@@ -1120,6 +1120,47 @@ func ruleEndGroupAssertExempt(r *Run) {
 		r.Check("(*recordedBits).endGroup#assert-exempts-discard", cs.Instr.Pos(), exempt(cs.Arg(0), p.facts(cs.Instr), 0), "the assertion holds trivially for a discarded group", "an assertion of endGroup ("+p.expr(cs.Arg(0))+") can fail for a discarded group: an attempt that is rejected before its first draw (input exhausted inside Custom/Filter, Skip before drawing) panics with an assertion, which is reported as a failure of the test case instead of a skip — and only on the stream kind this branch serves")
 	}
 	r.Floor("assertions in endGroup", n, 1)
+	// … and it is made in both recording modes: every path of endGroup to a return passes an assertion, unless the
+	// path has established that the group is discarded. The search (findBug, MakeFuzz, the first run of every shrink
+	// step) runs on non-recording streams, the reproduction and the second run of accept on recording ones: an
+	// assertion made in one mode only gives the same bits two verdicts ("flaky").
+	var discardPar ssa.Value
+	for _, pa := range fn.Params {
+		if pa.Name() == "discard" {
+			discardPar = pa
+		}
+	}
+	bad := ""
+	complete := p.pathsFrom(fn.Blocks[0], 2000, func(cp *cfgPath, back bool) {
+		if bad != "" || back || cp.infeasible {
+			return
+		}
+		last := cp.blocks[len(cp.blocks)-1]
+		if _, isRet := last.Instrs[len(last.Instrs)-1].(*ssa.Return); !isRet {
+			return
+		}
+		for _, b := range cp.blocks {
+			for _, in := range b.Instrs {
+				if c, ok := in.(*ssa.Call); ok {
+					if k := p.calleeKey(c.Common()); k == "assertf" || k == "assert" {
+						return
+					}
+				}
+			}
+		}
+		if discardPar != nil {
+			if v, known := cp.eval(discardPar); known && v {
+				return
+			}
+		}
+		bad = cp.String()
+	})
+	if !complete {
+		r.Undecided("(*recordedBits).endGroup#assert-in-both-modes", fn.Pos(), "too many paths in endGroup")
+	} else {
+		r.Check("(*recordedBits).endGroup#assert-in-both-modes", fn.Pos(), bad == "", "every path of endGroup that keeps the group passes the 'used data' assertion, whatever the recording mode",
+			"endGroup returns on path "+bad+" without the 'group used data' assertion although the group is kept: a Custom function that draws nothing passes on the streams served by that path and panics on the others — the same bits get two verdicts (search vs. reproduction: 'flaky')")
+	}
 }
 
 // ruleNoDeferredEndGroup: endGroup asserts that a kept group used data. Called normally it is reached only after
